@@ -4,3 +4,32 @@ def fill(reg):
         'trick counts + passed-out contracts) through the public calc_score, compared with an independent Law-77 formula.',
         'Trusted: the formula oracle mc/ref/score.py (cross-checked against known scores in selftest).',
         'exhaustive enumeration of a finite input domain against a reference model', 'DESIGN.md 4/C07', 'A-sequential')
+
+    A = 'A-sequential'
+    reg('C01', 'model_checking',
+        'Explicit-state search of the real BiddingPhase: complete canonical state graph per dealer (6154 states), all 38 calls '
+        'offered in every state (legal or not); verdict, 38-slot vector and unchanged-on-reject compared with a history-based '
+        'reference on every transition; unmerged cross-check and long walks up to the 319-call maximal auction.',
+        'Trusted: mc/ref/auction.py; merge key soundness argument in DESIGN.md 4/C01 (checked differentially at merge time and by '
+        'the unmerged enumeration).',
+        'explicit-state model checking of the implementation against a reference model', 'DESIGN.md 4/C01', A)
+    reg('C02', 'model_checking',
+        'Same complete state graph as C01 with the rotation/termination oracle: seat on turn = dealer rotated by the history length, '
+        'per-seat shares, FINISHED exactly on the closing call, and in every finished state each of the 38 calls raises and changes nothing.',
+        'Trusted: mc/ref/auction.py (finished = 4 opening passes or 3 passes after any bid/X/XX).',
+        'explicit-state model checking of the implementation against a reference model', 'DESIGN.md 4/C02', A)
+    reg('C03', 'model_checking',
+        'State graph of the real BiddingPhase with one cell of the first-to-name table in the key (2 of 10 projections quick, all 10 thorough, x 4 dealers); '
+        'contract(), the whole table, vulnerability and declarer compared with the reference on every transition; None before the end.',
+        'Trusted: mc/ref/auction.py; projection argument (take_bid/contract touch one table cell) in DESIGN.md 4/C03.',
+        'explicit-state model checking of the implementation against a reference model', 'DESIGN.md 4/C03', A)
+    reg('C15', 'model_checking',
+        'Complete enumeration of every finite notation domain (52 cards, 52x52 ordered pairs, 38 calls, seats, vulnerabilities and spellings, all contracts x vul x declarer): '
+        'each conversion and its inverse, injectivity, order vs index.',
+        'Trusted: the literal notation tables in mc/props/C15.py.',
+        'exhaustive enumeration of finite domains', 'DESIGN.md 4/C15', A)
+    reg('C16', 'model_checking',
+        'Every integer difference in a window 3x beyond the last threshold against the Law 78B table, boundedness, monotonicity, oddness; '
+        'finite list of huge magnitudes; score_to_imp on all pairs of achievable scores.',
+        'Trusted: IMP rows typed from Law 78B in mc/ref/score.py; above 4000 the implementation scan is constant (read from the code).',
+        'exhaustive enumeration over a bounded window plus structured large values', 'DESIGN.md 4/C16', A)
